@@ -48,7 +48,9 @@ _TMP = None            # scratch directory of a whole run (created in run(), inh
 
 
 def _scratch():
-    return tempfile.mkdtemp(prefix='c16_', dir=os.environ.get('VMC_SCRATCH', '/var/tmp'))
+    # $VMC_SCRATCH wins; otherwise tmpfs when available (file creation on the disk fs costs 1-2 ms, 25x more)
+    d = os.environ.get('VMC_SCRATCH') or ('/dev/shm' if os.access('/dev/shm', os.W_OK | os.X_OK) else '/var/tmp')
+    return tempfile.mkdtemp(prefix='c16_', dir=d)
 
 
 class _Scratch:
